@@ -19,6 +19,7 @@
 
 #include <cstdint>
 #include <istream>
+#include <limits>
 
 #include <nop/status.h>
 
@@ -59,7 +60,14 @@ class StreamReader {
   }
 
   Status<void> Skip(std::size_t padding_bytes) {
-    stream_.seekg(padding_bytes, std::ios_base::cur);
+    // Extract and discard instead of seeking: a seek past the end of the data
+    // succeeds on some stream buffers and only sets failbit on others, so
+    // running out of data would go unreported.
+    if (padding_bytes >= static_cast<std::size_t>(
+                             std::numeric_limits<std::streamsize>::max()))
+      return ErrorStatus::StreamError;
+
+    stream_.ignore(static_cast<std::streamsize>(padding_bytes));
     return ReturnStatus();
   }
 
@@ -69,7 +77,7 @@ class StreamReader {
 
  private:
   Status<void> ReturnStatus() {
-    if (stream_.bad() || stream_.eof())
+    if (stream_.fail() || stream_.eof())
       return ErrorStatus::StreamError;
     else
       return {};
